@@ -471,4 +471,11 @@ def rule_h(ctx: Ctx) -> None:
                 'enumerated in _prefix_encoding).')
 
 
-RULES = [rule_a, rule_b, rule_c, rule_d, rule_e, rule_f, rule_g, rule_h]
+def rule_i(ctx: Ctx) -> None:
+    """The names of an element and of its attributes are mapped with the element's own namespace scope: the scopes pushed for its
+    descendants (also for children that are skipped or cut) are purged before converter.element_decode runs, on every path - C08.f body."""
+    from .c08 import rule_f as own_scope
+    own_scope(ctx, 'C17.i')
+
+
+RULES = [rule_a, rule_b, rule_c, rule_d, rule_e, rule_f, rule_g, rule_h, rule_i]
